@@ -197,3 +197,65 @@ Proof.
   split; [apply fill_no_pct; assumption|].
   rewrite match_fill by assumption. cbn [option_map]. rewrite unquote_bindings; auto.
 Qed.
+
+(* ---- soundness: every matched value lies in the class of its hole *)
+
+Lemma forallb_rev {A} (f : A -> bool) l : forallb f (rev l) = forallb f l.
+Proof.
+  induction l as [|x l IH]; [reflexivity|]. cbn [rev forallb]. rewrite forallb_app, IH. cbn [forallb].
+  rewrite andb_true_r. apply andb_comm.
+Qed.
+
+Lemma hole_try_sound n c mn k taken s r :
+  forallb (cls_mem c) taken = true -> hole_try n mn k taken s = Some r ->
+  exists v d, r = (n, v) :: d /\ forallb (cls_mem c) v = true /\ k s = Some d.
+Proof.
+  unfold hole_try. intros Ht H. destruct (Nat.leb mn (length taken)); [|discriminate].
+  destruct (k s) as [d|] eqn:E; [|discriminate]. inversion H. exists (rev taken), d.
+  rewrite forallb_rev. auto.
+Qed.
+
+Lemma hole_go_sound n c mn k : forall s taken r,
+  forallb (cls_mem c) taken = true -> hole_go n c mn k taken s = Some r ->
+  exists v d t, r = (n, v) :: d /\ forallb (cls_mem c) v = true /\ k t = Some d.
+Proof.
+  induction s as [|ch s IH]; intros taken r Ht H; cbn [hole_go] in H.
+  - destruct (hole_try_sound n c mn k taken [] r Ht H) as (v & d & H1 & H2 & H3). eauto 6.
+  - destruct (cls_mem c ch) eqn:Ec.
+    + destruct (hole_go n c mn k (ch :: taken) s) as [r'|] eqn:Eg.
+      * inversion H; subst r'. apply (IH (ch :: taken) r); [|exact Eg]. cbn [forallb]. rewrite Ec, Ht. reflexivity.
+      * destruct (hole_try_sound n c mn k taken (ch :: s) r Ht H) as (v & d & H1 & H2 & H3). eauto 6.
+    + destruct (hole_try_sound n c mn k taken (ch :: s) r Ht H) as (v & d & H1 & H2 & H3). eauto 6.
+Qed.
+
+Theorem match_values_in_class its : forall p d, match_items its p = Some d ->
+  Forall (fun nv => exists c mn, In (Hole (fst nv) c mn) its /\ forallb (cls_mem c) (snd nv) = true) d.
+Proof.
+  induction its as [|it its IH]; intros p d H.
+  - simpl in H. destruct (is_nil p); inversion H. constructor.
+  - destruct it as [l|n c mn].
+    + cbn [match_items] in H. destruct (strip_prefix l p) as [r|]; [|discriminate].
+      specialize (IH r d H). eapply Forall_impl; [|exact IH].
+      intros nv (c & mn & Hin & Hv). exists c, mn. split; [right; exact Hin|exact Hv].
+    + rewrite match_items_hole in H.
+      destruct (hole_go_sound n c mn (match_items its) p [] d eq_refl H) as (v & d' & t & -> & Hv & Hk).
+      constructor.
+      * exists c, mn. split; [left; reflexivity|exact Hv].
+      * specialize (IH t d' Hk). eapply Forall_impl; [|exact IH].
+        intros nv (c' & mn' & Hin & Hv'). exists c', mn'. split; [right; exact Hin|exact Hv'].
+Qed.
+
+(* the documented default class: a plain {name} never matches '/', '{' or '}' *)
+Lemma good_char_excludes c : good_char c = true -> c <> 47 /\ c <> 123 /\ c <> 125.
+Proof. unfold good_char. intros H. repeat split; intros ->; discriminate H. Qed.
+
+Theorem default_hole_stays_in_segment its p d n v :
+  match_items its p = Some d -> In (n, v) d ->
+  (forall c mn, In (Hole n c mn) its -> c = CGood) ->
+  ~ In 47 v /\ ~ In 123 v /\ ~ In 125 v.
+Proof.
+  intros Hm Hin Hc. pose proof (match_values_in_class its p d Hm) as Hall.
+  rewrite Forall_forall in Hall. destruct (Hall (n, v) Hin) as (c & mn & Hh & Hv). cbn [fst snd] in *.
+  rewrite (Hc c mn Hh) in Hv. rewrite forallb_forall in Hv.
+  repeat split; intros Hx; apply Hv in Hx; cbn [cls_mem] in Hx; apply good_char_excludes in Hx; tauto.
+Qed.
